@@ -145,7 +145,7 @@ class C06(Check):
             'optional field present or absent in shuffled order, nested error-info, optional <ok/>, errors nested under <data>; x 3 raise '
             'modes x exempt pattern sets (exact / prefix* / *suffix / *infix* / "*" / "**", user list and the nexus built-in list; messages '
             'of several words joined by single / double blanks, TAB, line feed, and patterns cut out of them with the case or the white space altered) run '
-            'through the REAL RPC._request / RPCReplyListener / RPCReply.parse on a stub session, and (6 % of the cases) through the public connect_uds entry point with errors_params against a Unix-socket server. Non-trivial = at least one rpc-error; '
+            'through the REAL RPC._request / RPCReplyListener / RPCReply.parse on a stub session, and (6 % of the cases) through the public connect_uds entry point with errors_params against a Unix-socket server; histories of 2-4 connects that are handed the SAME manager_params / errors_params dictionary. Non-trivial = at least one rpc-error; '
             'distinct by case.')
     TRUST = ['str.lower() is modelled for ASCII letters only; generators use ASCII letters plus uncased Unicode',
              'lxml parsing of the reply (error fields are taken from the parsed tree: environment)']
@@ -162,12 +162,62 @@ class C06(Check):
             {'errs': [[['error-severity', 'error'], ['error-message', 'VLAN with the same name exists (x)']]],
              'ok_too': False, 'mode': 2, 'pats': [], 'profile': 'nexus', 'nested': False},
         ]
-        return fixed + [gen_case(rng) for _ in range(n)]
+        return fixed + [gen_case(rng) for _ in range(n)] + [self.gen_connseq(rng) for _ in range(25 if tier == 'quick' else 600)]
 
     def search(self, tier, rng, broken):
         return [gen_case(rng) for _ in range(20000)]
 
+    # ---- histories of connects that share the caller's parameter dictionaries ----------------------------------------------
+    def gen_connseq(self, rng):
+        steps = []
+        for _ in range(rng.randint(2, 4)):
+            c = gen_case(rng)
+            c.pop('via', None)
+            c['mode_key'] = 'absent' if (c['mode'] == 2 and rng.random() < 0.4) else 'given'
+            steps.append(c)
+        return {'kind': 'connseq', 'steps': steps, 'share': rng.choice(['manager_params', 'errors_params', 'both'])}
+
+    def run_connseq(self, case):
+        """One settings dict (manager_params and / or errors_params) handed to several connect_uds calls in a row, the caller changing
+        only what differs: every manager must follow ITS OWN raise mode and exempt list."""
+        from impl import fakeserver as FS
+        from ncclient import manager
+        from ncclient.operations import RaiseMode
+        mp = {'timeout': 5}
+        shared_ep = {}
+        out = []
+        for st in case['steps']:
+            srv = FS.UnixServer(handler=lambda srv, req, st=st: [('send', reply_xml(st, FS.msg_id_of(req)))])
+            ep = shared_ep if case['share'] in ('errors_params', 'both') else {}
+            ep.pop('raise_mode', None)
+            ep.pop('ignore_errors', None)
+            if st.get('mode_key') != 'absent':
+                ep['raise_mode'] = {0: RaiseMode.NONE, 1: RaiseMode.ERRORS, 2: RaiseMode.ALL}[st['mode']]
+            if st['pats']:
+                ep['ignore_errors'] = list(st['pats'])
+            kw = dict(path=srv.path, device_params={'name': st['profile']}, errors_params=ep, timeout=5)
+            if case['share'] in ('manager_params', 'both'):
+                kw['manager_params'] = mp
+            try:
+                try:
+                    m = manager.connect_uds(**kw)
+                except Exception as e:
+                    out.append({'raised': 'connect:' + type(e).__name__})
+                    continue
+                try:
+                    out.append(self._call(m))
+                finally:
+                    try:
+                        m._session.close()
+                    except Exception:
+                        pass
+            finally:
+                srv.cleanup()
+        return {'steps': out}
+
     def run_impl(self, case):
+        if case.get('kind') == 'connseq':
+            return self.run_connseq(case)
         from impl.rpcstub import make_manager
         from ncclient.operations import RPCError
         srv = None
@@ -241,6 +291,8 @@ class C06(Check):
         return toks(ET.fromstring(reply_xml(case, 'MID').encode('utf-8')))
 
     def model_lines(self, case):
+        if case.get('kind') == 'connseq':
+            return [l for st in case['steps'] for l in self.model_lines(st)]
         if case.get('doc', True):
             return ['re doc %d %s %s' % (case['mode'], hlist(hexs(p) for p in effective_pats(case)), ' '.join(self.doc_tokens(case)))]
         errs = []
@@ -251,6 +303,8 @@ class C06(Check):
         return ['re run %d %d %s %s' % (case['mode'], 1 if case['ok_too'] else 0, hlist(hexs(p) for p in effective_pats(case)), hlist(errs))]
 
     def model_obs(self, case, outs):
+        if case.get('kind') == 'connseq':
+            return {'steps': [self.model_obs(st, [o]) for st, o in zip(case['steps'], outs)]}
         t = outs[0].split(' ')
         # raised|reply  severity  n  [error fields as the model extracted them from the document]
         rows = None
@@ -265,6 +319,12 @@ class C06(Check):
 
     def compare(self, case, io, mo):
         if mo is None:
+            return None
+        if case.get('kind') == 'connseq':
+            for k, (st, i, m) in enumerate(zip(case['steps'], io['steps'], mo['steps'])):
+                d = self.compare(st, i, m)
+                if d:
+                    return 'connect %d of %d sharing %s: %s' % (k + 1, len(case['steps']), case['share'], d)
             return None
         mo = dict(mo)
         mrows = mo.pop('rows', None)
@@ -284,6 +344,12 @@ class C06(Check):
         return None
 
     def oracle(self, case, io):
+        if case.get('kind') == 'connseq':
+            for k, (st, i) in enumerate(zip(case['steps'], io['steps'])):
+                r = self.oracle(st, i)
+                if r:
+                    return (r[0] + '@connect-history', 'connect %d of %d (the caller hands the same %s dict to every connect): %s' % (k + 1, len(case['steps']), case['share'], r[1]))
+            return None
         if io.get('raised') not in (True, False):
             return ('C06:unexpected-exception', 'call raised %s' % io.get('raised'))
         errs = [dict(e) for e in case['errs']]
@@ -328,6 +394,8 @@ class C06(Check):
         return None
 
     def nontrivial(self, case, io):
+        if case.get('kind') == 'connseq':
+            return any(len(st['errs']) >= 1 for st in case['steps'])
         return len(case['errs']) >= 1
 
 
